@@ -1,0 +1,100 @@
+//! Verification hooks (cargo feature `verif`, off by default).
+//!
+//! A thread-local sink of NDJSON events that record the state changes of the two scope
+//! machines (analysis and code generation), of the call tracker and of the loop builders.
+//! Nothing is recorded unless a test harness calls [`start`] on the current thread.
+
+use std::cell::{Cell, RefCell};
+
+use crate::pattern::Pattern;
+use crate::types::{ResolvedType, TypeInner};
+
+thread_local! {
+    static SINK: RefCell<Option<Vec<String>>> = const { RefCell::new(None) };
+    static NEXT_SCOPE_ID: Cell<u64> = const { Cell::new(0) };
+}
+
+/// Start recording events on the current thread.
+pub fn start() {
+    SINK.with(|s| *s.borrow_mut() = Some(Vec::new()));
+    NEXT_SCOPE_ID.with(|c| c.set(0));
+}
+
+/// Stop recording and return the recorded events (one JSON object per entry).
+pub fn take() -> Vec<String> {
+    SINK.with(|s| s.borrow_mut().take().unwrap_or_default())
+}
+
+/// Record an event; the closure is only evaluated while recording.
+pub(crate) fn emit<F: FnOnce() -> String>(f: F) {
+    SINK.with(|s| {
+        if let Some(events) = s.borrow_mut().as_mut() {
+            events.push(f());
+        }
+    });
+}
+
+/// Identity of a code-generation scope object.
+pub(crate) fn next_scope_id() -> u64 {
+    NEXT_SCOPE_ID.with(|c| {
+        let id = c.get();
+        c.set(id + 1);
+        id
+    })
+}
+
+/// JSON string literal.
+pub(crate) fn js(s: &str) -> String {
+    let mut out = String::with_capacity(s.len() + 2);
+    out.push('"');
+    for c in s.chars() {
+        match c {
+            '"' => out.push_str("\\\""),
+            '\\' => out.push_str("\\\\"),
+            c if (c as u32) < 0x20 => out.push_str(&format!("\\u{:04x}", c as u32)),
+            c => out.push(c),
+        }
+    }
+    out.push('"');
+    out
+}
+
+/// Pattern as JSON: `{"k":"id","x":..}`, `{"k":"ign"}`, `{"k":"ptup","es":[..]}`, `{"k":"parr","es":[..]}`.
+pub(crate) fn pattern_json(p: &Pattern) -> String {
+    match p {
+        Pattern::Identifier(i) => format!(r#"{{"k":"id","x":{}}}"#, js(i.as_inner())),
+        Pattern::Ignore => r#"{"k":"ign"}"#.to_string(),
+        Pattern::Tuple(es) => format!(
+            r#"{{"k":"ptup","es":[{}]}}"#,
+            es.iter().map(pattern_json).collect::<Vec<_>>().join(",")
+        ),
+        Pattern::Array(es) => format!(
+            r#"{{"k":"parr","es":[{}]}}"#,
+            es.iter().map(pattern_json).collect::<Vec<_>>().join(",")
+        ),
+    }
+}
+
+/// Resolved type as JSON (same encoding as the specification's types).
+pub(crate) fn type_json(ty: &ResolvedType) -> String {
+    match ty.as_inner() {
+        TypeInner::Boolean => r#"{"k":"bool"}"#.to_string(),
+        TypeInner::UInt(u) => format!(r#"{{"k":"u","n":{}}}"#, u.bit_width().get()),
+        TypeInner::Tuple(es) => format!(
+            r#"{{"k":"tup","es":[{}]}}"#,
+            es.iter().map(|e| type_json(e)).collect::<Vec<_>>().join(",")
+        ),
+        TypeInner::Array(e, n) => format!(r#"{{"k":"arr","e":{},"n":{}}}"#, type_json(e), n),
+        TypeInner::List(e, b) => format!(r#"{{"k":"list","e":{},"b":{}}}"#, type_json(e), b.get()),
+        TypeInner::Option(e) => format!(r#"{{"k":"opt","e":{}}}"#, type_json(e)),
+        TypeInner::Either(l, r) => format!(r#"{{"k":"either","l":{},"r":{}}}"#, type_json(l), type_json(r)),
+    }
+}
+
+/// Take/drop path (`false` = left, `true` = right) as a JSON array of 0/1.
+pub(crate) fn path_json(path: &[bool]) -> String {
+    format!(
+        "[{}]",
+        path.iter().map(|b| if *b { "1" } else { "0" }).collect::<Vec<_>>().join(",")
+    )
+}
